@@ -302,7 +302,7 @@ PLANS["C10"] = {
 
 def c11_steps(tier, seed):
     q = tier == "quick"
-    return [native("close-sweep-%d" % i, ["w_close", "--seed", seed * 10 + i, "--reps", 1 if q else 6, "--random", 120 if q else 3000],
+    return [{"name": "async-std-stream", "engine": "vha", "args": ["--seed", str(seed), "--trials", str(1500 if q else 60000)], "timeout": 600 if q else 3000}] + [native("close-sweep-%d" % i, ["w_close", "--seed", seed * 10 + i, "--reps", 1 if q else 6, "--random", 120 if q else 3000],
                    timeout=300 if q else 2400) for i in range(1 if q else 4)]
 
 
@@ -318,8 +318,9 @@ PLANS["C11"] = {
         "distinct = distinct (front-end, paused party, site, occurrence, delivery) tuples",
         ["'returns after a bounded number of steps' is decided by the stable stuck state (blocked per /proc on an empty self-pipe "
          "after close() returned), never by elapsed time",
-         "the real async adapters are not run here; the harness is the caller of the same public poll_signal with its own callback"]),
-    "floor": floor_counters(trials_consumer_paused=40, trials_closer_paused=6, poll_pending_results_checked=20),
+         "the real signal-hook-async-std stream is run (next() racing close(), delays at the consumer's failpoints, stable parked state = stranded); "
+         "tokio's adapter is not (same poll_signal, no runtime in the offline cache to drive it)"]),
+    "floor": floor_counters(trials_consumer_paused=40, trials_closer_paused=6, poll_pending_results_checked=20, async_std_trials_ended=100),
 }
 
 # ------------------------------------------------------------------------------------------- C12
